@@ -53,6 +53,9 @@ func (w *Workspace) newGen(fn *ssa.Function, ct *Contract) *Gen {
 func (w *Workspace) verifyFunction(key string, ct *Contract) (res *FuncResult) {
 	res = &FuncResult{Key: strings.TrimPrefix(ct.PkgPath, modPath+"/") + "." + ct.Key, Contract: ct}
 	fn := w.funcs[key]
+	if fn == nil && ct.View != "" {
+		fn = w.funcs[strings.TrimSuffix(key, "@"+ct.View)]
+	}
 	if fn == nil && !ct.IsLemma {
 		res.Err = fmt.Sprintf("function %s is under contract but no longer exists in the package", ct.Key)
 		return
@@ -216,6 +219,10 @@ func (g *Gen) function(fn *ssa.Function, ct *Contract) {
 		resVal = Val{Tuple: results}
 	}
 	bindResults(post, fn.Signature, resVal)
+	// lemma instances requested by the contract (each lemma is discharged as obligations of its own), stated over the exit state
+	for _, ap := range ct.Applies {
+		g.applyLemma(ct, ap, post)
+	}
 	// vacuity guards first: they must not see the postconditions as assumptions
 	for _, e := range ct.Canary {
 		t := post.trBool(e.Expr)
